@@ -165,6 +165,9 @@ func VP_C20_inode_fast_symlink() {
 // with n=0..4 extents: the inode's extent list is the on-disk one.
 func VP_C20_inode_extent_root() {
 	for n := 0; n <= 4; n++ {
+		if !vp.Thorough() && n != 1 && n != 4 {
+			continue
+		}
 		b := vp.Bytes("inode", 256)
 		ino := vp.U32("ino")
 		sb := c20SB(256, 1024, vp.Bool("hugefile"))
